@@ -304,12 +304,16 @@ func (h *Handler) HandleCreateFile(ctx *Context, path string) error {
 
 	// path is a directory -> closing file, just return
 	stat, err := h.Fs.Stat(path)
-	if err != nil {
+	switch {
+	case errors.Is(err, nil):
+		if stat.IsDir() {
+			return nil
+		}
+	case errors.Is(err, fs.ErrNotExist):
+		// new file, will be created below
+	default:
 		log.WarnContext(ctx, "Stat failed", logutil.ErrorAttr(err))
 		return err
-	}
-	if stat.IsDir() {
-		return nil
 	}
 
 	f, err := h.Fs.OpenFile(path, os.O_CREATE|os.O_TRUNC|os.O_WRONLY, fs.ModePerm)
